@@ -138,7 +138,7 @@ def expected_atoms(state):
 LAYOUTS = ["one", "two", "three", "blank_ter", "blank_one_ter", "same_id_oxt",
            "lower",
            "neg", "high", "gap", "icode", "descending", "water_tail",
-           "hetero_tail", "hidden_end"]
+           "hetero_tail", "hidden_end", "len2", "five", "digit_ids"]
 
 
 def build_layout(layout, x, *, oxt=True):
@@ -178,6 +178,13 @@ def build_layout(layout, x, *, oxt=True):
         chains = [(seq, "A", nums(1), None)]
     elif layout == "hidden_end":
         chains = [(seq, "A", nums(1), None), (seq, "A", nums(4), None)]
+    elif layout == "len2":  # every residue is a chain end
+        chains = [([x, x], "A", [1, 2], None), ([x, x], "B", [1, 2], None)]
+    elif layout == "five":
+        chains = [(seq, c, nums(1 + 10 * k), None)
+                  for k, c in enumerate("ABCDE")]
+    elif layout == "digit_ids":
+        chains = [(seq, "1", nums(1), None), (seq, "2", nums(1), None)]
     else:
         raise ValueError(layout)
     atoms, info = [], []
